@@ -234,10 +234,13 @@ func checkScore(w *load.World, c *core.Collector, f *ssa.Function, key string, w
 					}
 				}
 			}
-			if o["field:Weight"] {
+			if o["field:Weight"] || deepHas(w, fv, "field:Weight") {
 				hasW = true
 			}
-			if o["field:"+quantity] || o.HasPrefix("call:math.") || quantity == "Distance" && (o["call:?"] || o.HasPrefix("freevar:")) {
+			if o["field:"+quantity] || o.HasPrefix("call:math.") || quantity == "Distance" && (o["call:?"] || o.HasPrefix("freevar:") || deepHas(w, fv, "call:?")) {
+				hasQ = true
+			}
+			if quantity == "Distance" && deepHas(w, fv, "field:Distance") {
 				hasQ = true
 			}
 			if quantity == "Score" && len(o) > 0 && !o["field:Weight"] {
@@ -292,6 +295,8 @@ func rankVamana(w *load.World, c *core.Collector) {
 		c.Add("RANK", "anchor:vamana", core.Undecided, "", "IndexVamana.Search / greedySearch not found", props...)
 		return
 	}
+	// the results may be built by a helper the search calls
+	f = homeOf(f, func(g *ssa.Function) bool { return len(resultWrites(g)) > 0 })
 	writes := resultWrites(f)
 	if len(writes) == 0 {
 		c.Add("RANK", "anchor:vamana-results", core.Undecided, w.Position(f.Pos()), "no result append found in IndexVamana.Search", props...)
@@ -338,7 +343,7 @@ func rankVamana(w *load.World, c *core.Collector) {
 			bi, ok := call.Call.Value.(*ssa.Builtin)
 			return ok && bi.Name() == "len" && isSearchResultSlice(call.Call.Args[0].Type())
 		}
-		isLimit := func(v ssa.Value) bool { return ssax.Prov(v)["field:Limit"] }
+		isLimit := func(v ssa.Value) bool { return deepHas(w, v, "field:Limit") }
 		x, y, op := bo.X, bo.Y, bo.Op
 		if isLenRes(y) && isLimit(x) {
 			x, y = y, x
@@ -370,15 +375,18 @@ func rankVamana(w *load.World, c *core.Collector) {
 		if call, isCall := wr.(*ssa.Call); isCall {
 			_ = call
 			var nodeID, setID string
+			var nodeVal, setVal ssa.Value
 			for _, b := range f.Blocks {
 				for _, in := range b.Instrs {
 					if st, ok := in.(*ssa.Store); ok && fieldOfAddr(st.Addr) == "models.SearchResult.NodeId" {
+						nodeVal = st.Val
 						if ic, ok := st.Val.(*ssa.Call); ok && ic.Call.IsInvoke() {
 							nodeID, _ = ssax.Path(ic.Call.Value)
 						}
 					}
 					if cl, ok := in.(*ssa.Call); ok {
 						if g := cl.Call.StaticCallee(); g != nil && strings.HasSuffix(g.String(), "roaring64.Bitmap).Add") && cl.Block() == wr.Block() {
+							setVal = cl.Call.Args[1]
 							if ic, ok := cl.Call.Args[1].(*ssa.Call); ok && ic.Call.IsInvoke() {
 								setID, _ = ssax.Path(ic.Call.Value)
 							}
@@ -386,7 +394,7 @@ func rankVamana(w *load.World, c *core.Collector) {
 					}
 				}
 			}
-			okIDs = nodeID != "" && nodeID == setID
+			okIDs = nodeID != "" && nodeID == setID || nodeVal != nil && nodeVal == setVal
 		}
 		if okIDs {
 			c.Add("RANK", "vamana:resultset-ids"+k, core.OK, w.At(wr), "", props...)
@@ -473,6 +481,60 @@ func rankVamana(w *load.World, c *core.Collector) {
 			}
 		}
 	}
+	// seeding moved into a helper that receives the filter: every add it makes to a distance set
+	// must take its points from the filter (or be guarded by Contains)
+	for _, b := range gs.Blocks {
+		for _, in := range b.Instrs {
+			h := ssax.StaticModuleCallee(in)
+			if h == nil || len(h.Blocks) == 0 || h == gs {
+				continue
+			}
+			hasFilter := false
+			for _, p := range h.Params {
+				if strings.Contains(p.Type().String(), "roaring64.Bitmap") {
+					hasFilter = true
+				}
+			}
+			if !hasFilter {
+				continue
+			}
+			isFilterH := isParamOrCapture(h, "roaring64.Bitmap")
+			feH, _ := filterEdges(h, isFilterH)
+			for _, hb := range h.Blocks {
+				for _, hin := range hb.Instrs {
+					call, ok := hin.(*ssa.Call)
+					if !ok {
+						continue
+					}
+					g := call.Call.StaticCallee()
+					if g == nil || !strings.HasPrefix(g.Name(), "Add") || g.Signature.Recv() == nil || ssax.TypeName(g.Signature.Recv().Type()) != "vamana.DistSet" {
+						continue
+					}
+					// only adds to a set the helper received (the result set is one of them)
+					if _, isParam := call.Call.Args[0].(*ssa.Parameter); !isParam {
+						continue
+					}
+					fromFilter := false
+					for _, a := range call.Call.Args[1:] {
+						for k := range ssax.Prov(a) {
+							if strings.Contains(k, "roaring64") && (strings.Contains(k, "Iterator") || strings.Contains(k, "Next") || strings.Contains(k, "ToArray")) {
+								fromFilter = true
+							}
+						}
+					}
+					if g.Name() == "AddWithLimit" || fromFilter {
+						n++
+					}
+					key := fmt.Sprintf("vamana:filter-gate@%s#%s", h.Name(), g.Name())
+					if fromFilter || onlyViaAny(feH, hb) {
+						c.Add("RANK", key, core.OK, w.At(hin), "", props...)
+					} else {
+						c.Add("RANK", key, core.Violation, w.At(hin), "a point is added to a result set in the seeding helper without coming from the filter or having been tested with filter.Contains", props...)
+					}
+				}
+			}
+		}
+	}
 	if n < 2 {
 		c.Add("RANK", "anchor:vamana-filter-adds", core.Undecided, w.Position(gs.Pos()), fmt.Sprintf("found %d adds to the filtered result set in greedySearch, expected 2", n), props...)
 	}
@@ -486,20 +548,55 @@ func rankFlat(w *load.World, c *core.Collector) {
 		return
 	}
 	n := 0
-	for _, g := range append([]*ssa.Function{f}, f.AnonFuncs...) {
+	// the scan, its callback literals, and helpers they call (a refactoring may move the insertion there)
+	cands := append([]*ssa.Function{f}, f.AnonFuncs...)
+	type site struct {
+		in *ssa.Function
+		at ssa.Instruction
+	}
+	calledFrom := map[*ssa.Function][]site{}
+	for _, g := range append([]*ssa.Function{}, cands...) {
+		for _, b := range g.Blocks {
+			for _, in := range b.Instrs {
+				if h := ssax.StaticModuleCallee(in); h != nil && len(h.Blocks) > 0 && len(resultWrites(h)) > 0 {
+					if len(calledFrom[h]) == 0 {
+						cands = append(cands, h)
+					}
+					calledFrom[h] = append(calledFrom[h], site{g, in})
+				}
+			}
+		}
+	}
+	for _, g := range cands {
 		writes := resultWrites(g)
 		if len(writes) == 0 {
 			continue
 		}
 		isFilter := isParamOrCapture(g, "roaring64.Bitmap")
 		fe, found := filterEdges(g, isFilter)
+		viaSites, sitesGated := false, true
+		if !found && len(calledFrom[g]) > 0 {
+			// the gate is at the call sites of the helper
+			viaSites = true
+			for _, cs := range calledFrom[g] {
+				cfe, cfound := filterEdges(cs.in, isParamOrCapture(cs.in, "roaring64.Bitmap"))
+				if !cfound || reachableWithoutEdges(cs.in, cfe, cs.at.Block()) {
+					sitesGated = false
+				}
+				found = found || cfound
+			}
+		}
 		for _, wr := range writes {
 			n++
 			key := fmt.Sprintf("flat:filter-gate#%d", n)
+			gated := found && !reachableWithoutEdges(g, fe, wr.Block())
+			if viaSites {
+				gated = sitesGated
+			}
 			switch {
 			case !found:
 				c.Add("RANK", key, core.Violation, w.At(wr), "the flat scan never tests the filter", props...)
-			case !reachableWithoutEdges(g, fe, wr.Block()):
+			case gated:
 				c.Add("RANK", key, core.OK, w.At(wr), "", props...)
 			default:
 				c.Add("RANK", key, core.Violation, w.At(wr), "a result can be stored although a filter was given and the point was not found in it", props...)
@@ -513,26 +610,53 @@ func rankFlat(w *load.World, c *core.Collector) {
 						continue
 					}
 					bo, ok := ifi.Cond.(*ssa.BinOp)
-					if !ok || bo.Op != token.LSS {
+					if !ok {
 						continue
 					}
-					lc, ok1 := bo.X.(*ssa.Call)
-					cc, ok2 := bo.Y.(*ssa.Call)
-					if !ok1 || !ok2 {
+					// len(res) against its capacity or against the limit: the edge on which there is room
+					isLen := func(v ssa.Value) bool {
+						lc, ok := v.(*ssa.Call)
+						if !ok {
+							return false
+						}
+						lb, ok := lc.Call.Value.(*ssa.Builtin)
+						return ok && lb.Name() == "len" && isSearchResultSlice(lc.Call.Args[0].Type())
+					}
+					isBound := func(v ssa.Value) bool {
+						if cc, ok := v.(*ssa.Call); ok {
+							if cb, ok := cc.Call.Value.(*ssa.Builtin); ok && cb.Name() == "cap" && isSearchResultSlice(cc.Call.Args[0].Type()) {
+								return true
+							}
+						}
+						return deepHas(w, v, "field:Limit")
+					}
+					x, y, op := bo.X, bo.Y, bo.Op
+					if isLen(y) && isBound(x) {
+						x, y = y, x
+						op = map[token.Token]token.Token{token.LSS: token.GTR, token.GTR: token.LSS, token.LEQ: token.GEQ, token.GEQ: token.LEQ, token.EQL: token.EQL, token.NEQ: token.NEQ}[op]
+					}
+					if !isLen(x) || !isBound(y) {
 						continue
 					}
-					lb, ok1 := lc.Call.Value.(*ssa.Builtin)
-					cb, ok2 := cc.Call.Value.(*ssa.Builtin)
-					if ok1 && ok2 && lb.Name() == "len" && cb.Name() == "cap" && ssax.OnlyViaEdge(b, 0, call.Block()) {
+					room := -1
+					switch op {
+					case token.LSS, token.NEQ:
+						room = 0
+					case token.GEQ, token.EQL:
+						room = 1
+					}
+					if room >= 0 && ssax.OnlyViaEdge(b, room, call.Block()) {
 						okLim = true
 					}
 				}
 				capIsLimit := false
-				for _, b := range f.Blocks {
-					for _, in := range b.Instrs {
-						if ms, ok := in.(*ssa.MakeSlice); ok && isSearchResultSlice(ms.Type()) && ssax.Prov(ms.Cap)["field:Limit"] {
-							if _, arith := ms.Cap.(*ssa.BinOp); !arith {
-								capIsLimit = true
+				for _, ff := range append([]*ssa.Function{f}, f.AnonFuncs...) {
+					for _, b := range ff.Blocks {
+						for _, in := range b.Instrs {
+							if ms, ok := in.(*ssa.MakeSlice); ok && isSearchResultSlice(ms.Type()) && deepHas(w, ms.Cap, "field:Limit") {
+								if _, arith := ms.Cap.(*ssa.BinOp); !arith {
+									capIsLimit = true
+								}
 							}
 						}
 					}
@@ -1216,10 +1340,34 @@ func vamanaSeedWindow(w *load.World, c *core.Collector) {
 	}
 	size := ints[1] // (query, k, searchSize, filter): second int
 	var nextBlk *ssa.BasicBlock
-	for _, b := range gs.Blocks {
-		for _, in := range b.Instrs {
-			if call, ok := in.(*ssa.Call); ok && call.Call.IsInvoke() && call.Call.Method.Name() == "Next" && inLoop(b) {
-				nextBlk = b
+	findNext := func(fn *ssa.Function) *ssa.BasicBlock {
+		var blk *ssa.BasicBlock
+		for _, b := range fn.Blocks {
+			for _, in := range b.Instrs {
+				if call, ok := in.(*ssa.Call); ok && call.Call.IsInvoke() && call.Call.Method.Name() == "Next" && inLoop(b) {
+					blk = b
+				}
+			}
+		}
+		return blk
+	}
+	nextBlk = findNext(gs)
+	if nextBlk == nil {
+		// the seeding loop may live in a helper that receives the search size
+		for _, b := range gs.Blocks {
+			for _, in := range b.Instrs {
+				h := ssax.StaticModuleCallee(in)
+				if h == nil || len(h.Blocks) == 0 || nextBlk != nil {
+					continue
+				}
+				call := in.(ssa.CallInstruction).Common()
+				for i, a := range call.Args {
+					if a == ssa.Value(size) && i < len(h.Params) {
+						if blk := findNext(h); blk != nil {
+							nextBlk, gs, size = blk, h, h.Params[i]
+						}
+					}
+				}
 			}
 		}
 	}
@@ -1293,4 +1441,55 @@ func vamanaSeedWindow(w *load.World, c *core.Collector) {
 	if !found {
 		c.Add("RANK", "vamana:seed-window", core.Undecided, w.Position(gs.Pos()), "the seeding loop has no guard that compares a count with the search size", props...)
 	}
+}
+
+// homeOf returns f itself when it satisfies has, otherwise the first static
+// module callee (two levels) that does: a block of f that a refactoring moved
+// into a helper is analysed where it now lives.
+func homeOf(f *ssa.Function, has func(*ssa.Function) bool) *ssa.Function {
+	if f == nil || has(f) {
+		return f
+	}
+	seen := map[*ssa.Function]bool{f: true}
+	level := []*ssa.Function{f}
+	for depth := 0; depth < 2; depth++ {
+		var next []*ssa.Function
+		for _, g := range level {
+			for _, b := range g.Blocks {
+				for _, in := range b.Instrs {
+					h := ssax.StaticModuleCallee(in)
+					if h == nil || seen[h] || len(h.Blocks) == 0 {
+						continue
+					}
+					seen[h] = true
+					if has(h) {
+						return h
+					}
+					next = append(next, h)
+				}
+			}
+			for _, lit := range g.AnonFuncs {
+				if !seen[lit] {
+					seen[lit] = true
+					if has(lit) {
+						return lit
+					}
+					next = append(next, lit)
+				}
+			}
+		}
+		level = next
+	}
+	return f
+}
+
+// deepHas: the value's provenance, followed through parameters to the call
+// sites and through captured variables, contains the label.
+func deepHas(w *load.World, v ssa.Value, label string) bool {
+	for k := range provDeep(w, v) {
+		if k == label || strings.HasSuffix(k, ":"+label) {
+			return true
+		}
+	}
+	return false
 }
